@@ -6,6 +6,7 @@
    estimate counts one header per 32768 bytes, the writer needs one per 32761). *)
 From Coq Require Import ZArith Lia ZifyN ZifyNat ZifyBool.
 From KV Require Import Bytes GenConsts Chunk Record Engine Script BytesLemmas ChunkProofs FramingProofs FileProofs EngineFiles AMapLemmas EngineInv EngineBatch EngineRefine.
+From KV Require EngineLog EngineRecover.
 Open Scope N_scope.
 Ltac Zify.zify_post_hook ::= Z.div_mod_to_equations.
 
@@ -682,5 +683,205 @@ Theorem limit_from_empty c ops d0 k0 e0 d k rs evs :
 Proof.
   intros Ho Hs Hr. destruct (open_empty_FL _ _ _ _ Ho) as [HF Hc].
   destruct (files_respect_the_limit _ _ _ _ _ _ _ HF Hs Hr) as [[Ha Hold] Hc2]. rewrite Hc2, Hc in *.
+  split; [exact (proj2 Ha)|]. intros i f Hin. exact (proj2 (Hold i f Hin)).
+Qed.
+
+(* ---- restarts that do not lower the limit (no merge pending) ------------------------------------------ *)
+Lemma FL_mono fs fs' f : fs <= fs' -> FL fs f -> FL fs' f.
+Proof. intros H [Z [L|S]]; split; try exact Z; [left; lia|right; exact S]. Qed.
+
+Lemma h_close_same io nm f : lf_recs (fst (h_close io nm f)) = lf_recs f /\ lf_size (fst (h_close io nm f)) = lf_size f /\
+  lf_phys (fst (h_close io nm f)) = lf_size f.
+Proof. unfold h_close. destruct (io =? io_MMap); cbn; auto. Qed.
+
+Lemma close_all_in io : forall l i g, In (i, g) (fst (close_all io l)) ->
+  exists f, In (i, f) l /\ lf_recs g = lf_recs f /\ lf_size g = lf_size f /\ lf_phys g = lf_size f.
+Proof.
+  induction l as [|[j f] l IH]; intros i g Hin; cbn [close_all] in Hin; [destruct Hin|].
+  destruct (h_close_same io (FData j) f) as (A & B & C).
+  destruct (h_close io (FData j) f) as [f' ev1]. destruct (close_all io l) as [rest ev2]. cbn [fst] in *.
+  destruct Hin as [E|Hin].
+  - injection E as <- <-. exists f. split; [left; reflexivity|auto].
+  - destruct (IH i g Hin) as (f0 & H0 & H1). exists f0. split; [right; exact H0|exact H1].
+Qed.
+
+Lemma h_open_same io nm f : lf_recs (fst (h_open io nm true f)) = lf_recs f /\ lf_size (fst (h_open io nm true f)) = lf_phys f.
+Proof.
+  unfold h_open. destruct (io =? io_MMap).
+  - set (f0 := mkLf _ _ _ _ _ _). destruct (h_remap_same nm f0 (lf_phys f) mmapBlockSize) as [H1 H2].
+    destruct (h_remap nm f0 (lf_phys f) mmapBlockSize) as [f1 evs]. cbn [fst] in *. rewrite H1, H2. auto.
+  - auto.
+Qed.
+
+Lemma open_all_in io : forall l i g, In (i, g) (fst (open_all io l)) ->
+  exists f, In (i, f) l /\ lf_recs g = lf_recs f /\ lf_size g = lf_phys f.
+Proof.
+  induction l as [|[j f] l IH]; intros i g Hin; cbn [open_all] in Hin; [destruct Hin|].
+  destruct (h_open_same io (FData j) f) as (A & B).
+  destruct (h_open io (FData j) true f) as [f' ev1]. destruct (open_all io l) as [rest ev2]. cbn [fst] in *.
+  destruct Hin as [E|Hin].
+  - injection E as <- <-. exists f. split; [left; reflexivity|auto].
+  - destruct (IH i g Hin) as (f0 & H0 & H1). exists f0. split; [right; exact H0|exact H1].
+Qed.
+
+Lemma split_last_in {A} : forall (l : list A) i z, split_last l = Some (i, z) -> In z l /\ forall x, In x i -> In x l.
+Proof.
+  induction l as [|x l IH]; intros i z H; cbn [split_last] in H; [discriminate|].
+  destruct l as [|y l].
+  - injection H as <- <-. split; [left; reflexivity|intros ? []].
+  - destruct (split_last (y :: l)) as [[i0 z0]|] eqn:E; [|discriminate]. injection H as <- <-.
+    destruct (IH i0 z0 eq_refl) as [HA HB]. split; [right; exact HA|].
+    intros x0 [->|Hx]; [left; reflexivity|right; exact (HB x0 Hx)].
+Qed.
+
+Lemma update_index_files d k ty p : d_active (update_index d k ty p) = d_active d /\ d_older (update_index d k ty p) = d_older d /\
+  d_cfg (update_index d k ty p) = d_cfg d /\ d_active_id (update_index d k ty p) = d_active_id d.
+Proof.
+  unfold update_index. destruct (ty =? rt_Deleted).
+  - destruct (idx_del _ k) as [ix old]. auto.
+  - destruct (idx_put _ k p) as [ix old]. auto.
+Qed.
+Lemma fold_update_files : forall l d,
+  let d' := fold_left (fun acc e => update_index acc (r_key (fst e)) (r_type (fst e)) (snd e)) l d in
+  d_active d' = d_active d /\ d_older d' = d_older d /\ d_cfg d' = d_cfg d /\ d_active_id d' = d_active_id d.
+Proof.
+  induction l as [|e l IH]; intros d; cbn [fold_left]; [auto|].
+  destruct (update_index_files d (r_key (fst e)) (r_type (fst e)) (snd e)) as (A & B & C & D).
+  destruct (IH (update_index d (r_key (fst e)) (r_type (fst e)) (snd e))) as (A' & B' & C' & D'). cbv zeta in *.
+  rewrite A', B', C', D'. auto.
+Qed.
+Lemma replay_recs_files : forall rs d t,
+  d_active (fst (replay_recs d t rs)) = d_active d /\ d_older (fst (replay_recs d t rs)) = d_older d /\
+  d_cfg (fst (replay_recs d t rs)) = d_cfg d /\ d_active_id (fst (replay_recs d t rs)) = d_active_id d.
+Proof.
+  induction rs as [|[r p] rs IH]; intros d t; cbn [replay_recs]; [auto|].
+  destruct (r_batch r =? 0).
+  - destruct (update_index_files d (r_key r) (r_type r) p) as (A & B & C & D).
+    destruct (IH (update_index d (r_key r) (r_type r) p) t) as (A' & B' & C' & D'). rewrite A', B', C', D'. auto.
+  - destruct (r_type r =? rt_BatchFinished).
+    + destruct (fold_update_files (txn_get t (r_batch r)) d) as (A & B & C & D). cbv zeta in *.
+      match goal with |- context [replay_recs ?X ?T rs] => destruct (IH X T) as (A' & B' & C' & D') end.
+      rewrite A', B', C', D'. auto.
+    + apply IH.
+Qed.
+Lemma replay_files_files : forall files d t from,
+  d_active (fst (replay_files d t files from)) = d_active d /\ d_older (fst (replay_files d t files from)) = d_older d /\
+  d_cfg (fst (replay_files d t files from)) = d_cfg d /\ d_active_id (fst (replay_files d t files from)) = d_active_id d.
+Proof.
+  induction files as [|[id f] files IH]; intros d t from; cbn [replay_files]; [auto|].
+  destruct (id <? from); [apply IH|].
+  destruct (replay_recs_files (lf_recs f) d t) as (A & B & C & D).
+  destruct (replay_recs d t (lf_recs f)) as [d1 t1]. cbn [fst] in *.
+  destruct (IH d1 t1 from) as (A' & B' & C' & D'). rewrite A', B', C', D'. auto.
+Qed.
+
+(* the files of the open database, as Close leaves them on disk *)
+Lemma db_close_files d k k1 ev : FLdb d -> db_close d k = (k1, ev) ->
+  k_merge k1 = k_merge k /\ forall i g, In (i, g) (k_data k1) -> FL (c_fsize (d_cfg d)) g /\ lf_phys g = lf_size g.
+Proof.
+  intros [Ha Ho] Hc. unfold db_close in Hc.
+  destruct (h_close_same (io_of d) (FData (d_active_id d)) (d_active d)) as (A & B & C).
+  destruct (h_close (io_of d) (FData (d_active_id d)) (d_active d)) as [a ev1].
+  pose proof (close_all_in (io_of d) (d_older d)) as Hin.
+  destruct (close_all (io_of d) (d_older d)) as [o ev2]. cbn [fst] in *. injection Hc as <- _. cbn [k_merge k_data].
+  split; [reflexivity|]. intros i g Hg. apply in_older_set in Hg. destruct Hg as [E|Hg].
+  - injection E as -> ->. split; [exact (FL_same _ _ _ A B Ha)|congruence].
+  - destruct (Hin i g Hg) as (f & Hf & R1 & R2 & R3). split; [exact (FL_same _ _ _ R1 R2 (Ho i f Hf))|congruence].
+Qed.
+
+Lemma db_open_FL c k d k' evs fs :
+  k_merge k = None -> (forall i g, In (i, g) (k_data k) -> FL fs g /\ lf_phys g = lf_size g) -> fs <= c_fsize c ->
+  db_open c k = (OpenOk d k', evs) -> FLdb d /\ d_cfg d = c /\ k_merge k' = None.
+Proof.
+  intros Hnm Hfiles Hfs H. unfold db_open, load_merge_files in H. rewrite Hnm in H.
+  pose proof (open_all_in (c_io c) (k_data k)) as Hin.
+  destruct (open_all (c_io c) (k_data k)) as [files ev2]. cbn [fst] in Hin.
+  assert (Hall : forall i g, In (i, g) files -> FL (c_fsize c) g).
+  { intros i g Hg. destruct (Hin i g Hg) as (f & Hf & R1 & R2). destruct (Hfiles i f Hf) as [HFL Hp].
+    apply (FL_mono fs); [exact Hfs|]. apply (FL_same _ f g R1); [congruence|exact HFL]. }
+  change (0 <? 0) with false in H. cbn -[h_open db_rotate replay_files split_last] in H.
+  destruct (split_last files) as [[older [aid af]]|] eqn:Esl.
+  - destruct (split_last_in _ _ _ Esl) as [Hz Hi].
+    destruct (replay_files_files files (mkDb c aid af older [] 0 0 0) [] 0) as (A & B & C & D).
+    destruct (replay_files (mkDb c aid af older [] 0 0 0) [] files 0) as [d3 t3]. cbn [fst d_active d_older d_cfg d_active_id] in *.
+    assert (HF3 : FLdb d3).
+    { unfold FLdb. rewrite A, B, C. split; [exact (Hall _ _ Hz)|]. intros i g Hg. exact (Hall _ _ (Hi _ Hg)). }
+    destruct ((0 <=? aid) && lf_torn af).
+    + destruct (db_rotate d3) as [d4 ev5] eqn:Hrot. destruct (db_rotate_FL _ _ _ HF3 Hrot) as (HF4 & _ & _ & Hc4).
+      injection H as <- <- _. split; [exact HF4|]. split; [congruence|exact Hnm].
+    + injection H as <- <- _. split; [exact HF3|]. split; [exact C|exact Hnm].
+  - pose proof (h_open_new (c_io c) (FData 0)) as [Hr Hs].
+    destruct (h_open (c_io c) (FData 0) false lf_empty) as [n ev] eqn:Ho. cbn [fst] in *.
+    destruct (replay_files_files files (mkDb c 0 n [] [] 0 0 0) [] 0) as (A & B & C & D).
+    destruct (replay_files (mkDb c 0 n [] [] 0 0 0) [] files 0) as [d3 t3]. cbn [fst andb d_active d_older d_cfg d_active_id] in *.
+    injection H as <- <- _. split; [|split; [exact C|exact Hnm]].
+    unfold FLdb. rewrite A, B, C. split; [split; [left; exact Hr|left; rewrite Hs; lia]|intros i g []].
+Qed.
+
+Lemma db_open_never_fails c k e k2 ev : db_open c k <> (OpenErr e k2, ev).
+Proof.
+  intros Ho. unfold db_open in Ho. destruct (load_merge_files k) as [[k1' mid] e1]. destruct (open_all _ _) as [files e2].
+  destruct (if 0 <? mid then _ else _) as [[hr k2'] e3]. destruct (load_hint _ _ _) as [d1 hinted].
+  destruct (split_last files) as [[older [aid af]]|].
+  - destruct (replay_files _ _ _ _) as [d3 t3]. destruct (_ && _); [destruct (db_rotate d3)|]; discriminate.
+  - destruct (h_open _ _ _ _). destruct (replay_files _ _ _ _). cbn [andb] in Ho. discriminate.
+Qed.
+
+(* histories with restarts: every restart reopens with a limit at least as large as the one before; no merges *)
+Fixpoint ops_small_r (fs : N) (ops : list op) : Prop :=
+  match ops with
+  | [] => True
+  | OpRestart c :: r => fs <= c_fsize c /\ ops_small_r (c_fsize c) r
+  | OpMerge _ :: r => False
+  | o :: r => op_small o /\ ops_small_r fs r
+  end.
+
+Lemma step_keeps_no_merge d k o d' k' r evs : (match o with OpMerge _ | OpRestart _ => False | _ => True end) ->
+  step (d, k) o = ((d', k'), r, evs) -> k' = k.
+Proof.
+  intros Ho Hs. unfold step in Hs. destruct o as [key v|key|key| | | | |sync id bops|order|c]; try contradiction.
+  - destruct (db_put d key v) as [[d1 e] ev]. injection Hs as _ <- _ _. reflexivity.
+  - destruct (db_get d key) as [[d1 v] ev]. injection Hs as _ <- _ _. reflexivity.
+  - destruct (db_delete d key) as [[d1 e] ev]. injection Hs as _ <- _ _. reflexivity.
+  - injection Hs as _ <- _ _. reflexivity.
+  - destruct (db_fold d) as [[d1 rr] ev]. injection Hs as _ <- _ _. reflexivity.
+  - destruct (db_stat d) as [[[kn fn] rc] tot]. injection Hs as _ <- _ _. reflexivity.
+  - destruct (db_sync d) as [d1 ev]. injection Hs as _ <- _ _. reflexivity.
+  - destruct (run_bops d (new_batch sync id) bops) as [[[d1 b1] rs] ev1]. destruct (batch_commit d1 b1) as [[[d2 b2] e] ev2].
+    injection Hs as _ <- _ _. reflexivity.
+Qed.
+
+Theorem files_respect_the_limit_across_restarts : forall ops fs d k d' k' rs evs,
+  FLdb d -> k_merge k = None -> c_fsize (d_cfg d) <= fs -> ops_small_r fs ops ->
+  run (d, k) ops = ((d', k'), rs, evs) -> FLdb d'.
+Proof.
+  induction ops as [|o ops IH]; intros fs d k d' k' rs evs HF Hnm Hfs Hs Hr; cbn [run] in Hr; [injection Hr as <- _ _ _; exact HF|].
+  destruct (step (d, k) o) as [[[d1 k1] r] ev1] eqn:E1.
+  destruct (run (d1, k1) ops) as [[[d2 k2] rs2] ev2] eqn:E2. injection Hr as <- _ _ _.
+  assert (Hplain : (match o with OpMerge _ | OpRestart _ => False | _ => True end) -> op_small o /\ ops_small_r fs ops ->
+                   FLdb d2).
+  { intros Hp [Ho Hrest]. destruct (step_FL _ _ _ _ _ _ _ HF Ho E1) as (HF1 & Hc1).
+    pose proof (step_keeps_no_merge _ _ _ _ _ _ _ Hp E1) as Hk. subst k1.
+    apply (IH fs d1 k d2 k2 rs2 ev2 HF1 Hnm); [rewrite Hc1; exact Hfs|exact Hrest|exact E2]. }
+  destruct o as [key v|key|key| | | | |sync id bops|order|c]; cbn [ops_small_r] in Hs; try (apply Hplain; [exact I|exact Hs]).
+  - contradiction.
+  - destruct Hs as [Hle Hrest]. cbn [step] in E1.
+    destruct (db_close d k) as [kc evc] eqn:Ec. destruct (db_close_files _ _ _ _ HF Ec) as [Hm Hfiles]. rewrite Hnm in Hm.
+    destruct (db_open c kc) as [[d0 k0|er k0] evo] eqn:Eo.
+    + injection E1 as <- <- _ _.
+      destruct (db_open_FL c kc d0 k0 evo (c_fsize (d_cfg d)) Hm Hfiles ltac:(lia) Eo) as (HF0 & Hc0 & Hm0).
+      exact (IH (c_fsize c) d0 k0 d2 k2 rs2 ev2 HF0 Hm0 ltac:(rewrite Hc0; lia) Hrest E2).
+    + exfalso. exact (db_open_never_fails _ _ _ _ _ Eo).
+Qed.
+
+Theorem limit_from_empty_with_restarts c ops d0 k0 e0 d k rs evs :
+  db_open c empty_disk = (OpenOk d0 k0, e0) -> ops_small_r (c_fsize c) ops -> run (d0, k0) ops = ((d, k), rs, evs) ->
+  (lf_size (d_active d) <= c_fsize (d_cfg d) \/ single (d_active d)) /\
+  (forall i f, In (i, f) (d_older d) -> lf_size f <= c_fsize (d_cfg d) \/ single f).
+Proof.
+  intros Ho Hs Hr. destruct (open_empty_FL _ _ _ _ Ho) as [HF Hc].
+  assert (Hk : k_merge k0 = None).
+  { destruct (EngineRecover.open_empty_log c) as (d1 & k1 & e1 & Ho1 & _ & Hnm). rewrite Ho in Ho1. injection Ho1 as _ <- _. exact Hnm. }
+  pose proof (files_respect_the_limit_across_restarts ops (c_fsize c) d0 k0 d k rs evs HF Hk ltac:(rewrite Hc; lia) Hs Hr) as [Ha Hold].
   split; [exact (proj2 Ha)|]. intros i f Hin. exact (proj2 (Hold i f Hin)).
 Qed.
